@@ -140,6 +140,12 @@ func (s *slicer) derives(v ssa.Value, stack []*ssa.Call, field int) bool {
 				return false
 			}
 			return s.derives(a.X, stack, -1)
+		case *ssa.FreeVar:
+			// a variable of the enclosing function captured by reference: what that function
+			// stores into it (the literal is created once)
+			if al := capturedAlloc(a); al != nil {
+				return s.fromAlloc(al, nil, field, nil)
+			}
 		}
 		return s.derives(x.X, stack, field)
 	case *ssa.Alloc:
@@ -350,4 +356,38 @@ func (s *slicer) fromCall(c *ssa.Call, res int, stack []*ssa.Call, field int) bo
 		}
 	}
 	return false
+}
+
+// capturedAlloc: the local of the enclosing function a free variable of a function literal
+// is bound to, when the literal is created at exactly one place.
+func capturedAlloc(fv *ssa.FreeVar) *ssa.Alloc {
+	fn := fv.Parent()
+	par := fn.Parent()
+	if par == nil {
+		return nil
+	}
+	idx := -1
+	for i, v := range fn.FreeVars {
+		if v == fv {
+			idx = i
+		}
+	}
+	var out *ssa.Alloc
+	n := 0
+	for _, b := range par.Blocks {
+		for _, ins := range b.Instrs {
+			mc, ok := ins.(*ssa.MakeClosure)
+			if !ok || mc.Fn != ssa.Value(fn) || idx < 0 || idx >= len(mc.Bindings) {
+				continue
+			}
+			n++
+			if a, ok := mc.Bindings[idx].(*ssa.Alloc); ok {
+				out = a
+			}
+		}
+	}
+	if n != 1 {
+		return nil
+	}
+	return out
 }
